@@ -21,6 +21,10 @@ def check_bytes(data: bytes, which=("C01", "C04")):
 
     if not data:
         return "empty"
+    if tuple(which) == ("C06",):
+        return check_c06(data)
+    if tuple(which) == ("C12",):
+        return check_c12(data)
     sel = data[0]
     body = data[1:]
     mode = 2 if tuple(which) == ("C01",) else sel & 3  # C01 campaigns spend everything on the stream reader
@@ -81,6 +85,66 @@ def check_bytes(data: bytes, which=("C01", "C04")):
             if str(parsed.identity) != framing.ref_identity(raw[3:-3]):
                 raise Fail("message-number-mismatch", f"identity {parsed.identity!r} vs {framing.ref_identity(raw[3:-3])!r}")
     return f"stream-delivered{min(delivered, 2)}"
+
+
+def check_c06(data: bytes):
+    """arbitrary payload bytes: the constructor returns iff the independent interpreter does not overrun, and then
+    every value agrees (C06 differential, also C03's oracle)"""
+    from pyrtcm import RTCMMessage
+
+    from pv import framing, model
+    from pv.checks.c03 import compare
+    from pv.core import Fail
+
+    p = bytes(data[:1023])
+    ident = framing.ref_identity(p)
+    if ident is None or model.definition(ident) is None:
+        return "undefined"
+    try:
+        _, w = model.decode(p, ident)
+    except model.Overrun:
+        w = None
+    try:
+        m = RTCMMessage(payload=p)
+    except Exception:  # pylint: disable=broad-except
+        m = None
+    if m is None and w is not None:
+        raise Fail("complete-message-rejected", f"{ident}: all fields fit in {len(p)} bytes but the constructor raised; payload {p.hex()[:120]}")
+    if m is not None and w is None:
+        raise Fail("overrunning-message-accepted", f"{ident}: fields need more than {len(p)} bytes but a message was returned; payload {p.hex()[:120]}")
+    if m is not None:
+        compare(p, w, m, "fuzz")
+        return "accepted"
+    return "rejected"
+
+
+def check_c12(data: bytes):
+    """bytes -> (encoding, chunk bodies, partition, bufsize); oracle = reference chunk decoder on the unsegmented stream"""
+    from pv.checks import c12
+
+    if len(data) < 3:
+        return "short"
+    enc = ["none", "none", "gzip", "compress", "deflate"][data[0] % 5]
+    term = bool(data[0] & 0x80)
+    ncuts = data[1] % 8
+    bufsize = [4096, 4096, 1, 3, 16, 64][data[2] % 6]
+    pos = 3
+    cutraw = data[pos : pos + 2 * ncuts]
+    pos += 2 * ncuts
+    chunks = []
+    while pos < len(data) and len(chunks) < 5:
+        ln = data[pos] % 48
+        pos += 1
+        chunks.append(bytes(data[pos : pos + ln]))
+        pos += ln
+    if enc == "none":
+        chunks = [c for c in chunks if c]
+    case = {"chunks": [c.hex() for c in chunks], "enc": enc, "hexcase": [data[0] >> 5 & 3], "terminator": term, "mode": "generated", "wbits": [15, 9, 12][data[1] >> 6 & 3 if (data[1] >> 6 & 3) < 3 else 0], "level": 6}
+    n = len(c12.encode(case)[0])
+    case["cuts"] = sorted({(cutraw[i] << 8 | cutraw[i + 1]) % n for i in range(0, len(cutraw) - 1, 2)} - {0}) if n > 1 else []
+    case["bufsize"] = bufsize
+    c12.o_chunked(case)
+    return f"enc-{enc}"
 
 
 def main():
